@@ -100,7 +100,12 @@ pub fn exec(case: &str) -> String {
 const ALPHABET: &[&str] = &["x", "y", "foo", "1", "23", "4.5", " ", " ", "\n", "\n", "\t", ":=", "=", "+=", "+", "-", "*", "/", "^", "(", ")", "[", "]", "{", "}", "<", ">", ",", ";", ":", ".", "..", "..=",
   "\"", "'", "|", "&&", "||", "!", "~", "#", "$$", "```", "--", "//", "=>", "->", "?", "@", "%", "\\", "_", "├", "└", "│", "─", "═", "true", "false", "u8", "f64", "<u8>", "∪", "∈", "⊆", "Δ", "⋈",
   "é", "e\u{301}", "😀", "👩‍👩‍👧", "🇩🇪", "\u{200b}", "\u{a0}", "\r\n", "\r", "中", "→", "≠", "¬", "*", "***", "- ", "> ", "1. ", "(1.1) ", "[^1]", "![", "](", "{{", "}}", "%%", "mech:", "disabled",
-  "0x", "0o", "0b", "0d", "1e", "e+", "e-", "i", "1/", "0x1", "u8", ".", "1."];
+  "0x", "0o", "0b", "0d", "1e", "e+", "e-", "i", "1/", "0x1", "u8", ".", "1.",
+  // every other sigil the grammar knows (operator spellings, box drawing, Mechdown and mika marks)
+  "§", "°", "·¬", "Ɔ∞", "ˆ", "˙", "Ͼ", "ಠ", "ᓀ", "ᓂ", "ᓄ", "ᓇ", "ᕤ", "ᕦ", "ᗑ", "ᗒ", "ᗢ", "ᗣ", "ᗩ", "…", "›⌣", "›─", "←", "⇒", "∘", "∞C", "≖", "≻", "⊕", "⊖", "⊗", "⋇", "⌐·", "⌐▰", "⌣", "⌣‹", "⍜", "⏺",
+  "─‹", "─◉─", "┃", "┌", "┏", "┐", "┓", "┗", "┘", "┛", "┤", "┬", "┴", "┼", "╥", "╭", "╭◉╮", "╮", "╯", "╰", "╰◉╯", "▰", "◉", "◕", "◜", "◞", "◠", "◡-", "◯", "☉", "⚆", "✓", "✖", "✗", "⦵", "⦾", "⦿",
+  "⸌", "⸍", "⸢", "⸥", "⸸", "⹇", "ㆆ", "🤖", ",…", "-◡", "=¬=", "¬=", "·", "×", "÷", "•", "∁", "∉", "∖", "∧", "∨", "∩", "≡", "≤", "≥", "⊂", "⊃", "⊇", "⊊", "⊋", "⊻", "⋀", "⋁", "⋉", "▷", "⟕", "⟖", "⟗", "⨯", "⩵",
+  "**", "*=", "-<", ">-", "<-", "=!=", "=:=", "^^", "^=", "/=", ":N"];
 
 fn mutate(rng: &mut Rng, src: &str) -> String {
   // token-level mutations: split on spaces/newlines keeping them
@@ -167,6 +172,7 @@ pub fn generate(seed: u64, thorough: bool, sink: &mut Sink) -> Vec<String> {
   for k in 1..=5 { for o in ["(", "[", "{"] { push("unclosed", o.repeat(k), sink); push("unclosed", format!("x := {}", o.repeat(k)), sink); } }
   // seven unclosed brackets do not finish within the budget (known finding): one case, thorough tier only
   if thorough { push("unclosed", "[".repeat(7), sink); }
+  for s in ["⸥\n", "hello ⸥ there\n", "⸢\n", "⸢ x ⸥\n", "⸥⸥", "x := 1\n⸥\ny := 2\n", "[^]: a note\n", "[^]:", "[^", "[^a]:"] { push("edge", s.to_string(), sink); }
   for s in ["$$$$", "$$", "```", "```mech", "\"", "x := \"", "|", "x := |a|", "#", "#A(", "~", ":=", "{{", "{{x", "[^", "![](", "\u{feff}x := 1", "x := 1\u{0}", "\r", "\r\n\r\n", ""] { push("edge", s.to_string(), sink); }
   // every proper prefix of every kind of lexeme, in the places an expression can stand: a literal or
   // operator cut short must be an error (or something shorter), never a panic
